@@ -23,6 +23,11 @@ func main() {
 		harness.KWorkerMain(os.Args[2], os.Stdin, os.Stdout)
 		return
 	}
+	if prop == "race" {
+		n, _ := strconv.Atoi(os.Args[3])
+		harness.RaceMain(os.Args[2], n)
+		return
+	}
 	if prop == "kdump" {
 		harness.KDump(os.Args[2], os.Args[3:])
 		return
